@@ -8,7 +8,7 @@ import ast
 
 from ..core import AnchorError, call_name, decorators, norm, short, own_nodes, kwarg, FUNC_TYPES
 from ..cfg import cfg_of
-from ..lib import calls_in, stmts_in, gate, must_pass, node_has, params, enclosing_handlers, handler_types
+from ..lib import calls_in, stmts_in, gate, must_pass, node_has, params, enclosing_handlers, handler_types, effective_body
 
 REFS = 'jedi.inference.references'
 PROJ = 'jedi.api.project'
@@ -25,7 +25,7 @@ def rule_a(repo, chk):
     ok = len(uses) == 1 and isinstance(uses[0].ops[0], ast.NotIn) and call_name(uses[0].left) == 'get_base_name'
     chk.ob('C19.a', ok, f, 'a folder is dropped when its base name is in _IGNORE_FOLDERS')
     b = repo.find('jedi.file_io', 'FolderIO.get_base_name')
-    ok = len(b.body) == 1 and norm(b.body[0]) == 'return os.path.basename(self.path)'
+    ok = [norm(x) for x in effective_body(b)] == ['return os.path.basename(self.path)']
     chk.ob('C19.a', ok, b, 'get_base_name is the last path component')
     # nobody rebinds or mutates the table
     for m in repo.modules.values():
